@@ -123,6 +123,52 @@ fn main() {
                 None => legs::c12::run(seed, args.thorough(), shards),
             }
         }
+        "c14" => {
+            guard::start_watchdog("c14", std::time::Duration::from_secs(120));
+            match &replay_value {
+                Some(v) => legs::dnswire::replay_c14(v),
+                None => legs::dnswire::run_c14(seed, args.thorough(), shards),
+            }
+        }
+        "c04" => {
+            guard::start_watchdog("c04", std::time::Duration::from_secs(120));
+            match &replay_value {
+                Some(v) => legs::dnswire::replay_c04(v),
+                None => legs::dnswire::run_c04(seed, args.thorough(), shards),
+            }
+        }
+        "c03" => {
+            guard::start_watchdog("c03", std::time::Duration::from_secs(120));
+            match &replay_value {
+                Some(v) => legs::dnswire::replay_c03(v),
+                None => legs::dnswire::run_c03(seed, args.thorough(), shards),
+            }
+        }
+        "c06" => {
+            guard::start_watchdog("c06", std::time::Duration::from_secs(120));
+            match &replay_value {
+                Some(v) => legs::dnsmisc::replay_c06(v),
+                None => legs::dnsmisc::run_c06(seed, args.thorough(), shards),
+            }
+        }
+        "c16" => {
+            guard::start_watchdog("c16", std::time::Duration::from_secs(120));
+            match &replay_value {
+                Some(v) => legs::dnsmisc::replay_c16(v),
+                None => legs::dnsmisc::run_c16(seed, args.thorough(), shards),
+            }
+        }
+        "c08" => {
+            guard::start_watchdog("c08", std::time::Duration::from_secs(120));
+            match &replay_value {
+                Some(v) => legs::c08::replay(v),
+                None => legs::c08::run(seed, args.thorough(), shards),
+            }
+        }
+        "consts" => {
+            println!("{}", legs::dnsmisc::consts());
+            return;
+        }
         _ => {
             eprintln!("usage: vh <leg> --seed N --tier quick|thorough --out FILE [--replay FILE]");
             std::process::exit(2);
